@@ -66,6 +66,10 @@ NegZeroOn(kind, Y) ==
   LET n == Len(Y) z == [i \in 1..n |-> FNeg(FZ)] IN
   IF kind = "D1" THEN [t |-> "D1", re |-> FOfRat(11, 8), vars |-> Y, d |-> z]
   ELSE [t |-> "D2", re |-> FOfRat(11, 8), vars |-> Y, d |-> z, d2half |-> [i \in 1..n |-> z]]
+CurvedOn(kind, Y) ==
+  LET n == Len(Y) z == [i \in 1..n |-> FZ] IN
+  IF kind = "D1" THEN [t |-> "D1", re |-> FOfRat(11, 8), vars |-> Y, d |-> z]
+  ELSE [t |-> "D2", re |-> FOfRat(11, 8), vars |-> Y, d |-> z, d2half |-> [i \in 1..n |-> [j \in 1..n |-> FOfRat(i + j, 16)]]]
 LayoutProg(kind, X, Y) ==
   LET leaves == << Leaf(kind, 1, FOfRat(7, 4), X), Leaf(kind, 2, FOfRat(5, 4), Y), LeafF(FOfRat(5, 2)),
                    LeafFrom(kind, 2, FOfRat(5, 4), Y, 1), Leaf(kind, 3, FOfRat(9, 8), UnionList(X, Y)),
@@ -76,7 +80,11 @@ LayoutProg(kind, X, Y) ==
                    ZeroOn(kind, Y),
                    \* 11 the float with 10's value, 12 a number of 10's value that lists NO name, 13 = 10 with -0.0 derivatives:
                    \* 10 .. 13 are all the same number ("a missing variable and a zero derivative are the same thing")
-                   LeafF(FOfRat(11, 8)), Leaf(kind, 5, FOfRat(11, 8), <<>>), NegZeroOn(kind, Y) >>
+                   LeafF(FOfRat(11, 8)), Leaf(kind, 5, FOfRat(11, 8), <<>>), NegZeroOn(kind, Y),
+                   \* 14 made by `new` from a list that REPEATS a name (each name once, arrays of matching shape, whatever was asked)
+                   \* 15 (second order) 10's value, zero gradient, but curvature of its own: NOT equal to 10, 11, 12
+                   [t |-> kind \o "new", re |-> FOfRat(7, 4), vars |-> <<"a", "a", "b">>],
+                   CurvedOn(kind, Y) >>
       pairs == {<<1, 2>>, <<2, 1>>, <<1, 4>>, <<4, 1>>, <<6, 2>>, <<2, 6>>, <<1, 3>>, <<3, 1>>}
       arith == {Bin(op, p[1], p[2], f) : op \in BinOps, p \in pairs, f \in Forms}
                \cup {Bin(op, p[1], p[2], <<"r", "r">>) : op \in BinOps, p \in {<<6, 8>>, <<8, 6>>, <<8, 2>>, <<2, 8>>}}
@@ -85,7 +93,10 @@ LayoutProg(kind, X, Y) ==
       rel == {Ins2(op, p[1], p[2]) : op \in {"eq", "ne", "vars_cmp", "ptr_eq", "to_new_vars", "union_l", "union_r"}, p \in dd}
              \cup {Ins2(op, p[1], p[2]) : op \in {"eq", "ne"}, p \in {<<1, 3>>, <<3, 1>>}}
              \cup {Ins2(op, p[1], p[2]) : op \in {"eq", "ne"}, p \in {<<10, 11>>, <<11, 10>>, <<10, 12>>, <<12, 10>>, <<13, 10>>, <<10, 13>>,
-                                                                      <<13, 11>>, <<11, 13>>, <<13, 12>>, <<12, 13>>, <<12, 11>>, <<11, 12>>}}
+                                                                      <<13, 11>>, <<11, 13>>, <<13, 12>>, <<12, 13>>, <<12, 11>>, <<11, 12>>,
+                                                                      <<15, 11>>, <<11, 15>>, <<15, 10>>, <<10, 15>>, <<15, 12>>, <<12, 15>>,
+                                                                      <<14, 1>>, <<1, 14>>, <<14, 14>>}}
+             \cup {Bin(op, p[1], p[2], <<"r", "r">>) : op \in {"add", "mul", "sub"}, p \in {<<14, 1>>, <<1, 14>>, <<14, 14>>, <<14, 2>>}}
              \* 9 differs from A in ONE highest-order entry only, on lists aligned (6) and not aligned (1, 8) with its own
              \cup {Ins2(op, p[1], p[2]) : op \in {"eq", "ne"}, p \in {<<1, 9>>, <<9, 1>>, <<6, 9>>, <<9, 6>>, <<8, 9>>, <<9, 8>>}}
   IN [key |-> "layout/" \o kind \o "/" \o ToString(X) \o ToString(Y), leaves |-> leaves, code |-> SetToSeq(arith \cup rel)]
